@@ -2,6 +2,7 @@
 
 C12.rel    every acquire() is followed by the matching release() on every path to every
            exit, exceptional exits included (each call may raise)
+C12.drain  delivery loops consume an element before delivering it and no handler inside the loop resumes it
 C12.order  lock-order graph over the resolved stack is acyclic; no chain re-acquires a held lock
 C12.block  blocking get() without timeout (reported with C04.attempt)
 """
@@ -71,7 +72,79 @@ def rule_rel(ctx):
                                 "lock %s stays held on a %s exit: %s" % (L, kind, fmt_path(p)))
 
 
+# calls into external libraries that consume one element of layer state (reviewed, one line each)
+EXTERNAL_CONSUMERS = {
+    "self._wa_noiseprotocol.receive": "_incoming_segments_queue",   # consonance: WANoiseProtocol.receive() reads one segment from the stream the layer feeds from this queue
+}
+CONSUMING_METHODS = {"pop", "popleft", "get", "get_nowait", "clear", "remove"}
+
+
+def rule_drain(ctx):
+    """delivery loops (a while-loop in a layer that hands elements of instance state upward): the element is consumed
+    before its delivery can raise, and no handler inside the loop resumes it - otherwise a failure above leaves the
+    same element at the head forever (every later frame fails) or the loop spins without consuming (holding its lock)."""
+    from ..cfg import edge_region, calls_in
+    ctx.rule("C12.drain", "delivery loops consume before delivering and never resume after a failure", floor=4)
+    repo = ctx.repo
+    base = repo.cls("yowsup/layers/__init__.py", "YowLayer")
+    n_loops = 0
+    for m, c, f in iter_functions(repo):
+        if c is None or base not in repo.mro(c):
+            continue
+        if not any(isinstance(x, ast.While) for x in ast.walk(f)):
+            continue
+        g = CFG(f)
+        qn = c.name + "." + f.name
+        for loop in [n for n in g.live if n.kind == "test" and isinstance(n.stmt, ast.While)]:
+            body = edge_region(g, loop, "true")
+            ups = [n for n in body if calls_in(n, "toUpper", selfonly=True)]
+            if not ups:
+                continue
+            ctx.repo.consulted.add(m.relpath)
+            n_loops += 1
+            state = sorted({x.attr for x in ast.walk(loop.stmt.test) if isinstance(x, ast.Attribute) and isinstance(x.value, ast.Name) and x.value.id == "self"
+                            and not (isinstance(getattr(x, "ctx", None), ast.Load) and False)} - set(c.methods))
+            w = where(m.relpath, qn, loop.line)
+
+            def consumes(n):
+                st = n.stmt
+                if n.kind == "stmt" and isinstance(st, (ast.Assign, ast.AugAssign, ast.Delete)):
+                    tg = st.targets if isinstance(st, (ast.Assign, ast.Delete)) else [st.target]
+                    for t in tg:
+                        while isinstance(t, ast.Subscript):
+                            t = t.value
+                        if isinstance(t, ast.Attribute) and isinstance(t.value, ast.Name) and t.value.id == "self" and t.attr in state:
+                            return True
+                for call in calls_in(n):
+                    fn_txt = unparse(call.func)
+                    if EXTERNAL_CONSUMERS.get(fn_txt) in state:
+                        return True
+                    if isinstance(call.func, ast.Attribute) and call.func.attr in CONSUMING_METHODS and isinstance(call.func.value, ast.Attribute) \
+                            and isinstance(call.func.value.value, ast.Name) and call.func.value.value.id == "self" and call.func.value.attr in state:
+                        return True
+                return False
+            consumers = [n for n in body if consumes(n)]
+            if not state or not consumers:
+                ctx.undecided("C12.drain", w, loop.stmt, "cannot tell what the loop consumes (state read by the loop test: %s)" % state)
+                continue
+            for up in ups:
+                own = up in consumers
+                p = None if own else g.path(loop, lambda x, up=up: x is up, avoid=consumers, edge_ok=lambda a, b, k: k != "exc")
+                ctx.check("C12.drain", p is None, where(m.relpath, qn, up.line), up.stmt,
+                          "the element is delivered upward before it is removed from self.%s: if the delivery raises, the same element is delivered again on the next call and everything behind it is stuck (%s)" % ("/".join(state), fmt_path(p)),
+                          "consumed from self.%s before (or while) it is delivered" % "/".join(state))
+            handlers = [n for n in body if n.kind == "handler"]
+            resumed = [(h, g.path(h, lambda x: x is loop)) for h in handlers]
+            resumed = [(h, p) for h, p in resumed if p is not None]
+            ctx.check("C12.drain", not resumed, w, loop.stmt,
+                      "an exception handler inside the loop resumes it (%s): a failing call that did not consume its element makes the loop spin forever%s" %
+                      (fmt_path(resumed[0][1]) if resumed else "", ""),
+                      "no handler resumes the loop: a failure leaves it (%d handler(s) inside)" % len(handlers))
+    ctx.units["C12.delivery_loops"] = n_loops
+
+
 def run(ctx):
     rule_rel(ctx)
+    rule_drain(ctx)
     from . import c12_order
     c12_order.run(ctx)
